@@ -9,7 +9,9 @@ fn gen_line(rng: &mut Rng, r: &[u8]) -> Vec<u8> {
     let mut v = vec![];
     let n = rng.range(1, 4);
     for i in 0..n {
-        match rng.below(9) {
+        match rng.below(10) {
+            // bytes that are not valid UTF-8 (a Latin-1 file name): the line is handed over as it is
+            9 => v.extend_from_slice(*rng.pick(&[&b"caf\xe9"[..], &b"\xff"[..], &b"a\xfe\xffb"[..], &b"\xc3"[..]])),
             0 => v.extend_from_slice(r),
             1 => v.extend_from_slice("é".as_bytes()),
             2 => v.extend_from_slice(b"x y"),
